@@ -143,7 +143,8 @@ PRegisterRaw(t, mask) ==
 PUid(u) == [uid |-> u]
 PRevoke(u, code) == [uid |-> u, code |-> code]
 PGet(u) == [uid |-> u, fmt |-> "", comp |-> "", wrap |-> FALSE,
-            w |-> [method |-> "ENCRYPT", haskey |-> FALSE, kuid |-> 0, hasmac |-> FALSE, anames |-> FALSE, enc |-> "NO_ENCODING"]]
+            w |-> [method |-> "ENCRYPT", haskey |-> FALSE, kuid |-> 0, hasmac |-> FALSE, anames |-> FALSE, enc |-> "NO_ENCODING",
+                  nocp |-> FALSE]]      \* nocp: the encryption key information carries no cryptographic parameters
 PGetWrap(u, k) == [PGet(u) EXCEPT !.wrap = TRUE, !.w.haskey = TRUE, !.w.kuid = k]
 PCrypto(u) == [uid |-> u, hascp |-> TRUE]
 PMac(u) == [uid |-> u, hasalg |-> TRUE, hasdata |-> TRUE]
